@@ -497,6 +497,9 @@ SEED_OPS = [
     ("unary_operand", "a + -b"), ("cond_operand", "f() + (c ? 'k' : g() + h())"), ("regex_arg", "a.replace(/x/g, b)"),
     ("lit_spread", "a.concat(...'xy')"), ("require_noargs", "require() + a"), ("require_spread", "require(...a) + b"),
     ("new_regexp_noargs", "new RegExp + a"), ("new_regexp_args", "new RegExp(a, 'a long flag-like literal') + b"), ("opt_in_arg", "a?.trim(b?.trim())"), ("opt_callee", "f?.(a?.trim())"),
+    ("opt_proto_recv", "String?.prototype.substring(1)"), ("opt_proto_member", "o.x?.prototype.trim()"),
+    ("opt_call_member_callee", "o?.x.y?.(a).trim()"), ("pluseq_computed_sum", "o[a + b] += c"),
+    ("apply_surplus_array", "String.prototype.concat.apply(a, [b], [c], d)"),
 ]
 
 CONTEXTS = [
